@@ -242,6 +242,12 @@ func (o *OvsdbServer) Monitor(client *rpc2.Client, args []json.RawMessage, reply
 	if err := json.Unmarshal(args[2], &request); err != nil {
 		return err
 	}
+	// The initial contents and the registration of the monitor must be one
+	// step with respect to transactions: a transaction that has notified the
+	// existing monitors but is not committed yet would otherwise be missing
+	// from both the reply and the notifications of this monitor.
+	o.txnMutex.Lock()
+	defer o.txnMutex.Unlock()
 	o.monitorMutex.Lock()
 	defer o.monitorMutex.Unlock()
 	clientMonitors, ok := o.monitors[client]
@@ -288,6 +294,12 @@ func (o *OvsdbServer) MonitorCond(client *rpc2.Client, args []json.RawMessage, r
 	if err := json.Unmarshal(args[2], &request); err != nil {
 		return err
 	}
+	// The initial contents and the registration of the monitor must be one
+	// step with respect to transactions: a transaction that has notified the
+	// existing monitors but is not committed yet would otherwise be missing
+	// from both the reply and the notifications of this monitor.
+	o.txnMutex.Lock()
+	defer o.txnMutex.Unlock()
 	o.monitorMutex.Lock()
 	defer o.monitorMutex.Unlock()
 	clientMonitors, ok := o.monitors[client]
@@ -334,6 +346,12 @@ func (o *OvsdbServer) MonitorCondSince(client *rpc2.Client, args []json.RawMessa
 	if err := json.Unmarshal(args[2], &request); err != nil {
 		return err
 	}
+	// The initial contents and the registration of the monitor must be one
+	// step with respect to transactions: a transaction that has notified the
+	// existing monitors but is not committed yet would otherwise be missing
+	// from both the reply and the notifications of this monitor.
+	o.txnMutex.Lock()
+	defer o.txnMutex.Unlock()
 	o.monitorMutex.Lock()
 	defer o.monitorMutex.Unlock()
 	clientMonitors, ok := o.monitors[client]
